@@ -188,6 +188,9 @@ def parserCond : ParserCls → Stmt → Sec → Bool
 
 def selectParser (s : Stmt) (sec : Sec) : Option ParserCls := parserOrder.find? (fun c => parserCond c s sec)
 
+/-- `IOSpecDecoder.DECTYPE_COMPAT` -/
+def tDataSpec : Name := "DataSpec".toList
+
 inductive DecCls | interface | iospec | module | pickle | literal
 deriving DecidableEq, Repr
 
@@ -207,7 +210,7 @@ def decoderOrder : List DecCls := decoderClasses.filterMap DecCls.ofName
 def decoderCond : DecCls → Rhs → Bool
   | .literal, _ => true
   | .interface, .tagged t _ => t == tInterface
-  | .iospec, .tagged t _ => t == tIOSpec || t == "DataSpec".toList
+  | .iospec, .tagged t _ => t == tIOSpec || t == tDataSpec
   | .module, .tagged t _ => t == tModule
   | .pickle, .tagged t _ => t == tPickle
   | _, _ => false
@@ -616,10 +619,10 @@ def hasRef (done : List (Path × Name)) (lin : List Path) (x : Name) : Bool := l
 /-- `set_attr` → `SpaceManager.new_ref`: "Cannot create reference" - the space does not have the name yet
 (else it is `change_ref`), no model-level reference of the name exists (else that one is found first),
 and some sub space has it (own or derived) -/
-def refConflict (ctx : Ctx) (st : RState) (p : Path) (x : Name) : Bool :=
-  if hasRef st.done (lineage ctx st.bases p) x then false
-  else if st.done.contains ([], x) then false
-  else (subsOf ctx st.bases p).any (fun s => hasRef st.done (lineage ctx st.bases s) x)
+def refConflict (ctx : Ctx) (bs : BaseRel) (done : List (Path × Name)) (p : Path) (x : Name) : Bool :=
+  if hasRef done (lineage ctx bs p) x then false
+  else if done.contains ([], x) then false
+  else (subsOf ctx bs p).any (fun s => hasRef done (lineage ctx bs s) x)
 
 def toStrPath (p : Path) : Relative.Path := p.map String.ofList
 def ofStrPath (p : Relative.Path) : Path := p.map String.toList
@@ -634,14 +637,15 @@ def hasRelative (ctx : Ctx) (bs : BaseRel) (sub space target : Path) : Bool :=
 /-- `_check_subs_relrefs` for a `relative` object-valued reference: a sub space that would take the value
 (it does not define the name, and does not derive it from a base that precedes `p` in its linearisation)
 must have a counterpart of the target -/
-def relConflict (ctx : Ctx) (st : RState) (p : Path) (x : Name) (target : Path) : Bool :=
-  (subsOf ctx st.bases p).any (fun s =>
-    let lin := lineage ctx st.bases s
-    if st.done.contains (s, x) then false
+def relConflict (ctx : Ctx) (bs : BaseRel) (done : List (Path × Name)) (p : Path) (x : Name)
+    (target : Path) : Bool :=
+  (subsOf ctx bs p).any (fun s =>
+    let lin := lineage ctx bs s
+    if done.contains (s, x) then false
     else
-      match (lin.drop 1).find? (fun q => st.done.contains (q, x)) with
-      | some q => if lin.idxOf q < lin.idxOf p then false else !hasRelative ctx st.bases s p target
-      | none => !hasRelative ctx st.bases s p target)
+      match (lin.drop 1).find? (fun q => done.contains (q, x)) with
+      | some q => if lin.idxOf q < lin.idxOf p then false else !hasRelative ctx bs s p target
+      | none => !hasRelative ctx bs s p target)
 
 /-- the ItemSpaces of `q` are deleted when the namespace of `q`, of a space below it, or of a base of it
 changes (a model-level change reaches all) -/
@@ -679,12 +683,12 @@ def stepRef (ctx : Ctx) (st : RState) (p : Path) (x : Name) (v : Decoded) (mode 
     | some (some t) =>
       if !targetExists ctx st.bases t then .error .noTarget
       else if p = [] then .ok { dropFor ctx st p with done := st.done ++ [(p, x)] }
-      else if refConflict ctx st p x then .error .refConflict
-      else if mode = .relative && relConflict ctx st p x t then .error .relRefConflict
+      else if refConflict ctx st.bases st.done p x then .error .refConflict
+      else if mode = .relative && relConflict ctx st.bases st.done p x t then .error .relRefConflict
       else .ok { dropFor ctx st p with done := st.done ++ [(p, x)] }
     | none =>
       if p = [] then .ok { dropFor ctx st p with done := st.done ++ [(p, x)] }
-      else if refConflict ctx st p x then .error .refConflict
+      else if refConflict ctx st.bases st.done p x then .error .refConflict
       else .ok { dropFor ctx st p with done := st.done ++ [(p, x)] }
 
 /-- executing one instruction of the object at `p` -/
